@@ -13,6 +13,7 @@ import (
 	"io"
 	"net"
 	"sync"
+	"sync/atomic"
 	"time"
 )
 
@@ -79,8 +80,12 @@ type PacketEnd struct {
 	once   sync.Once
 	la, ra Addr
 	// Tap, if set, sees every datagram written at this end before the fault tape is applied.
-	Tap func([]byte)
+	Tap        func([]byte)
+	failWrites atomic.Int32
 }
+
+// FailNextWrites makes the next n writes at this end fail with an error (nothing is sent).
+func (e *PacketEnd) FailNextWrites(n int) { e.failWrites.Store(int32(n)) }
 
 func NewPacketLink(cfg LinkCfg) *PacketLink {
 	if cfg.LatencyMs < 1 {
@@ -244,6 +249,10 @@ func (e *PacketEnd) Write(b []byte) (int, error) {
 	case <-e.closed:
 		return 0, net.ErrClosed
 	default:
+	}
+	if e.failWrites.Load() > 0 {
+		e.failWrites.Add(-1)
+		return 0, io.ErrShortWrite
 	}
 	data := append([]byte(nil), b...)
 	if e.Tap != nil {
